@@ -373,6 +373,9 @@ func (p *PubPoly) Equal(q *PubPoly) bool {
 	if p.g.String() != q.g.String() {
 		return false
 	}
+	if len(p.commits) != len(q.commits) {
+		return false
+	}
 	b := 1
 	for i := 0; i < p.Threshold(); i++ {
 		pb, _ := p.commits[i].MarshalBinary()
